@@ -79,7 +79,11 @@ def P(pid, **kw):
 
 
 for _p in ["C%02d" % i for i in range(1, 18)]:
-    P(_p, level="proof", trusted_base=[TB_KANI, TB_SHIM, TB_HOOK], assumptions=[])
+    P(_p, level="proof", trusted_base=[TB_KANI, TB_SHIM, TB_HOOK], assumptions=[], claimed=False)
+
+
+def claim(pid, level_text, level_note, **kw):
+    PROPS[pid].update(claimed=True, level_text=level_text, level_note=level_note, **kw)
 
 H("c01_enc_lands", module="verif_amd64.rs", props=["C01", "C13"], fns=[(AMD, "generate_branch_to_target_function")],
   covers=["COVER:end", "COVER:short-form", "COVER:long-form"])
@@ -103,3 +107,55 @@ def _page_back(vals):
 _PAGE_FNS = [(COM, "patch_function", 0), (COM, "make_memory_writable_and_executable"), (COM, "make_memory_writable_and_executable_linux"), (COM, "inject_asm_code")]
 H("c01_page_cover", module="verif_common.rs", props=["C01"], fns=_PAGE_FNS, covers=["COVER:end", "COVER:straddles", "COVER:straddles-two"],
   replay=lambda vals, verif: _replay_bin("c01_page_span", [_page_back(vals)], verif))
+
+INT = "injector_core/internal.rs"
+VER = "interface/verifier.rs"
+FPT = "interface/func_ptr.rs"
+MI = "verif_injector.rs"
+_MODS_INJ = dict(module=MI, extra_modules=["verif_internal.rs"])
+H("c01_dispatch", module="verif_internal.rs", props=["C01"], fns=[(INT, "will_execute_guard"), (INT, "will_return_boolean_guard")], covers=["COVER:end", "COVER:bool", "COVER:raw"])
+H("c01_flavour_raw", props=["C01", "C02"], fns=[(INJ, "when_called"), (INJ, "will_execute_raw")], **_MODS_INJ)
+H("c01_flavour_raw_unchecked", props=["C01", "C02"], fns=[(INJ, "when_called_unchecked"), (INJ, "will_execute_raw_unchecked")], **_MODS_INJ)
+H("c01_flavour_fake_pair", props=["C01", "C02", "C06"], fns=[(INJ, "will_execute")], **_MODS_INJ)
+H("c01_flavour_bool", props=["C01", "C02", "C10"], fns=[(INJ, "will_return_boolean"), (INJ, "signature_returns_bool")], **_MODS_INJ)
+_B = "symbolic strings bounded in length L=8 (quick) / 12 (thorough), all printable-ASCII contents"
+H("c09_gate_raw", props=["C09", "C05"], fns=[(INJ, "will_execute_raw")], expects_panic=True, bounded=_B, covers=["COVER:end", "COVER:accepted-nontrivial"], **_MODS_INJ)
+H("c09_gate_pair", props=["C09", "C05"], fns=[(INJ, "will_execute")], expects_panic=True, bounded=_B, **_MODS_INJ)
+H("c09_gate_async", props=["C09", "C05", "C14"], fns=[(INJ, "will_return_async")], expects_panic=True, bounded=_B, **_MODS_INJ)
+H("c09_gate_mixed", props=["C09", "C05"], fns=[(INJ, "will_execute_raw"), (INJ, "when_called_unchecked")], expects_panic=True, bounded=_B, covers=[], covers_unreachable=["COVER:not-refused"], **_MODS_INJ)
+H("c09_null", props=["C09"], fns=[(FPT, "new")], covers=[], covers_unreachable=["COVER:constructed-from-null"], expect_fail_desc="expect_failed", min_obligations=2, **_MODS_INJ)
+H("c10_gate_unstructured", tiers=("thorough",), timeout=7200, props=["C10", "C05"], fns=[(INJ, "will_return_boolean"), (INJ, "signature_returns_bool")], expects_panic=True, bounded=_B, covers=[], covers_unreachable=["COVER:not-refused"], **_MODS_INJ)
+H("c07_reset", props=["C07"], fns=[(INJ, "will_execute")], covers=["COVER:end", "COVER:stale-count"], **_MODS_INJ)
+_INJ_FNS = [(INJ, "new", 1), (INJ, "prevent"), (INJ, "lock"), (INJ, "drop")]
+H("c04_injector_holds", props=["C04"], fns=_INJ_FNS + [(INJ, "will_execute_raw"), (INJ, "will_return_boolean")], min_obligations=8, **_MODS_INJ)
+H("c04_preventer_holds", props=["C04"], fns=_INJ_FNS + [(INJ, "is_active"), (INJ, "default")], min_obligations=6, **_MODS_INJ)
+_BK = "install histories of length K over two functions x {raw, boolean} on the real drop glue; all finite histories by the Verus lemma C02.lemma.rev"
+H("c02_cycle_raw", props=["C02", "C12", "C03"], fns=_INJ_FNS + [(COM, "drop")], **_MODS_INJ)
+H("c02_cycle_bool", props=["C02", "C12", "C03"], fns=_INJ_FNS + [(COM, "drop")], **_MODS_INJ)
+for _k in range(1, 8):
+    H("c02_order_k%d" % _k, props=["C02", "C12", "C04"], fns=_INJ_FNS, tiers=(("quick", "thorough") if _k <= 4 else ("thorough",)),
+      bounded="order of the real drop glue checked for history length K=%d (core replaced by a tagging recorder); all lengths by Vec::pop's contract + lemma_reverse_restores" % _k,
+      replay=lambda vals, verif: _replay_bin("c02_history", [0, 0], verif), **_MODS_INJ)
+H("c05_dropglue_panicking", props=["C05"], fns=_INJ_FNS + [(VER, "drop")], **_MODS_INJ)
+H("c05_verdict_after_restore", props=["C05", "C06"], fns=_INJ_FNS + [(VER, "drop")], expects_panic=True, covers=[], covers_unreachable=["COVER:no-verdict-panic"], **_MODS_INJ)
+
+# ------------------------------------------------------------------------------------------------
+claim("C01",
+      "Proof: every obligation is discharged for all inputs of its domain by Kani/CBMC on the real functions extracted from /repo/src: the x86-64 encoder for all (origin, target) pairs in the lower canonical half "
+      "(2^126 pairs) against an independent decoder; the real installers and PatchGuard::drop over a symbolic 64-byte code arena with symbolic placement; patch_function for every entry offset, patch length and page size "
+      "in {16,32,4096,16384,65536}; each public installation flavour against what it hands the core.",
+      "Trusted: the x86 decoder table, the OS model (shim), CBMC's object memory model (address arithmetic is decided on integers in the encoder obligation), that the CPU executes the bytes; allocate_jit_memory is replaced by its contract in the effect harnesses (the contract is proved by Verus under C11).",
+      trusted_base=[TB_KANI, TB_SHIM, TB_HOOK, TB_X86])
+claim("C02",
+      "Proof of the per-guard contracts (saved bytes == bytes before the patch; drop restores exactly them, frees exactly its mapping) on the real installer/drop for all arena contents and placements, "
+      "one whole real lifetime (post-state == pre-state); the restoration ORDER of the real drop glue is discharged per history length K (bounded stand-in, K<=4 quick / <=7 thorough, core replaced by a tagging recorder) and lifted to all finite histories by the Verus induction lemma.",
+      "Trusted: Vec::push/pop order and rustc's drop order of fields; the order obligation is bounded in K and labelled so; two real installations in one Kani harness exceed CBMC's capacity (65 GB), so histories are composed modularly.",
+      trusted_base=[TB_KANI, TB_SHIM, TB_HOOK, TB_X86])
+claim("C04",
+      "Proof (sequential) of lock containment on the real code: a live InjectorPP / Preventer holds LOCK_FUNCTION from construction to drop; every OS-visible step of installing and restoring happens while it is held; it is released afterwards and can be retaken. "
+      "Schedules are discharged by the assumed contract of std::sync::Mutex (at most one guard at a time).",
+      "Assumed, not verified: std::sync::Mutex mutual exclusion under every schedule, and that some waiter eventually acquires it (liveness). Kani does not execute threads. The poisoned arm of NoPoisonMutex::lock cannot be driven under Kani (std built with panic=abort) and is covered by type only.",
+      level="proof")
+claim("C07",
+      "Proof: for every prior value of the call-site counter and every expectation N, after the real will_execute the counter is 0 and the registered verifier is the one handed in.",
+      "Trusted: the counter reached through the verifier is the static the fake increments (shown per fake! arm under C06/C08).")
